@@ -110,7 +110,7 @@ Fixpoint bwf (e : bexp) : Prop :=
   end.
 
 Theorem translated_formula_end_to_end : forall e fuel kw r st v,
-  k_t kw = Some t -> k_defs kw = None -> py_truth (k_prime kw) = false ->
+  k_t kw = Some t -> no_defs defs defs_mem kw -> py_truth (k_prime kw) = false ->
   encodes var_id vars t env -> encodes_bool -> bwf e ->
   bsem env benv e = Some v ->
   flat fuel (bnode e) None kw = Some (r, st) ->
@@ -129,7 +129,7 @@ Proof.
       split; [reflexivity|]. eexists. split; reflexivity.
   - destruct W as [gb G]. injection S as <-.
     rewrite (var_flatten_is_model defs defs_mem var_id ext_flatten def_flatten fuel n None kw t Ht)
-      in H by (unfold nodef; now rewrite Hd).
+      in H by apply Hd.
     rewrite Hp, G in H. injection H as <- <-. split; [reflexivity|].
     eexists. split; [reflexivity|]. cbn [eval_px]. f_equal. now apply EncB.
   - destruct W as [[la La] [ra Ra]].
